@@ -385,7 +385,7 @@ func execute(c Case, info *execInfo) batch.Result {
 		res.Counters["max_parallel_sum"] += vr.MaxParallel
 		res.Counters["uncanonical_map_sites"] += vr.Uncanonical
 		res.Counters["tasks"] += vr.Tasks
-		digests = append(digests, vr.Digest^h64(strings.ReplaceAll(out.Stdout, dir, "$DIR")))
+		digests = append(digests, vr.Digest^h64(strings.ReplaceAll(out.Stdout, dir, "$DIR"))^simlint.DiskDigest(fs2))
 		what := fmt.Sprintf("schedule #%d (strategy %s, %d workers, seed %d, warm=%d, patterns=%v)", i, verifsim.Strategy(s.Strategy), s.Procs, s.Seed, s.Warm, s.Patterns)
 		if cl, d := simlint.Problems(vr); cl != "" {
 			fail(cl, "%s: %s", what, d)
